@@ -254,7 +254,7 @@ pub fn run(ctx: &Ctx) -> Report {
                 n += check_string(l, &d);
                 l.distinct_hash(Fnv::new().b(&d).get());
             }
-            for &c in EDIT_ALPHA {
+            for &c in if ctx.scale < 1.0 { &EDIT_ALPHA[..3] } else { EDIT_ALPHA } {
                 let mut ins = s.clone();
                 ins.insert(p, c);
                 n += check_string(l, &ins);
